@@ -71,3 +71,18 @@ TEXT = 'a fixture string'
 
 def func():
     return 'func'
+
+
+class _LegacyShadow:
+    """A package attribute named like the sub-module verif_fixtures.legacy
+    (kept for "backwards compatibility"); importing the sub-module rebinds
+    the name, the engine restores this object before every run."""
+    VALUE = ('legacy', 'shadow attribute of the package')
+    NUM = 1
+
+    class Thing(_Rec):
+        pass
+
+
+LEGACY_SHADOW = _LegacyShadow()
+legacy = LEGACY_SHADOW
